@@ -90,7 +90,7 @@ def matrix_phase(prop, tier, wd, verdict, select=None, min_served=20, min_refuse
         if rc != 0:
             raise Inconclusive("apidrv (concurrent identical listings) exited %s: %s" % (rc, err[-400:]))
         n = [e["responses"] for e in evs if e["ev"] == "ListRace"]
-        if not n or n[0] < 200:
+        if not n or n[0] < 40:
             raise Inconclusive("concurrent identical listings: only %s responses" % n)
         evs_all += evs
     inv = {v: k for k, v in DIAL.items()}
